@@ -958,10 +958,12 @@ impl Session {
             return Ok(());
         }
 
-        // Increment packet counter
+        // Increment packet counter. The authentication preamble is packet 0 (scheme line 0),
+        // so session writes are packets 1, 2, ...: use the incremented value
         let pkt = self
             .pkt_counter
-            .fetch_add(1, std::sync::atomic::Ordering::SeqCst);
+            .fetch_add(1, std::sync::atomic::Ordering::SeqCst)
+            .wrapping_add(1);
         let padding_factory = {
             let padding_guard = self.padding.read().await;
             padding_guard.clone()
